@@ -120,7 +120,7 @@ def run(ctx):
             m['args'] = a
             m['out'] = os.path.join(m['dir'], 'out_bad')
             bad.append(m)
-        cli.compare_with_model(ctx, ctx.bdir, cm + bad, name='K-CLI(model, --w)')
+        cli.compare_with_model(ctx, ctx.bdir, cm + bad, name='K-CLI(model, --w)', check_created=False)
     ctx.oracle.update({'evaluations': n_eval, 'distinct_nontrivial': len(keys),
                        'rule': 'read_affinity_data on generated files for every K in 2..5, L in 1..4, both models: well-formed files in several layouts (comment header, shuffled layers, tabs, blank lines) must put d_k on (k,k,layer) and leave the sentinels elsewhere; shape-mismatching files (columns +-1, ragged, extra/missing layer, layer id out of range or repeated, comment only, wrong K) must be rejected; start affinities of r = 2..4 realizations against file value + [0,0.1). distinct = (kind, K > 2, model, layout or mismatch kind)'})
     ctx.samples = [{'file': bytes.fromhex(cases[0].split()[6]).decode('latin-1')}]
